@@ -357,6 +357,24 @@ func runC08(env *core.Env) {
 		if hres.Exit != 0 || !sameSet(hgot, wantReady) {
 			fail("list-ready-human", fmt.Sprintf("human list --ready task rows = %v want %v", keys(hgot), keys(wantReady)), []core.Req{core.R("", "list", "--ready").In("")}, Assert{Kind: "exit_zero", Step: 1})
 		}
+		// the epic-scoped JSON view must report the same flags for its tasks as the unscoped one
+		for sc := 0; sc < 2 && c.Variant == 0; sc++ { // (plain histories only: the view code does not depend on the history)
+			if sc == 1 && c.E2Gone {
+				continue
+			}
+			r := w.Run(core.R(w.Proj, "--json", "list", "--epic", ep[sc]))
+			var items []core.Item
+			if r.Exit != 0 || json.Unmarshal(r.Out, &items) != nil {
+				continue
+			}
+			for _, it := range items {
+				all, ok := obs.Item(it.ID)
+				if ok && it.Kind == "task" && (it.Ready != all.Ready || it.Blocked != all.Blocked || it.State != all.State) {
+					fail("epic-scoped-list-disagrees", fmt.Sprintf("`list --json --epic %s` says ready=%v blocked=%v for %s, `list --json --all` says ready=%v blocked=%v", []string{"E1", "E2"}[sc], it.Ready, it.Blocked, it.Title, all.Ready, all.Blocked),
+						[]core.Req{core.R("", "--json", "list", "--epic", ep[sc])}, Assert{Kind: "exit_zero", Step: 1})
+				}
+			}
+		}
 		// claim: oldest ready, globally and per epic
 		for scope := 0; scope <= 2; scope++ {
 			if scope == 2 && c.E2Gone {
